@@ -1,6 +1,7 @@
 (** Pinned statements of the C07 property theorems: compiled on every check, so a theorem cannot be
     weakened silently. *)
-From V Require Import Base.Util Gql.Ast Peg.Peg Gen.C07_grammar_gen C07.Builder C07.Model C07.AstEq C07.Spec C07.Proofs C07.Properties.
+From V Require Import Base.Util Gql.Ast Peg.Peg Gen.C07_grammar_gen C07.Builder C07.Model C07.AstEq C07.Spec C07.Proofs C07.Lexical C07.Properties.
+From V Require Import Peg.PegProps.
 
 Check (C07_positions_true : forall inp file (p : pair rule),
   no_lone_cr inp = true ->
@@ -15,9 +16,32 @@ Check (C07_surrogate_pair_refuted :
               (exists t, string_at (skipn 7 inp) = Some t /\ t = [128512%N])).
 Check (C07_object_type_without_fields_refuted : parse_type_system_document 0 w_type_no_fields = PErr).
 Check (C07_union_without_members_refuted : parse_type_system_document 0 w_union_no_members = PErr).
+Check (C07_pairs_replayable : forall inp start ps p,
+  parse_pairs start inp = Ok ps -> in_forest p ps -> replayable gql_grammar inp p).
+Check (C07_names_true : forall inp start ps file s e kids,
+  parse_pairs start inp = Ok ps ->
+  in_forest (Pair R_Name s e kids) ps ->
+  let p := Pair R_Name s e kids in
+  kids = [] /\
+  name_at (skipn (N.to_nat s) inp) (iname (to_ident inp file p)) = true /\
+  (no_lone_cr inp = true ->
+   ipos (to_ident inp file p) = mkPos (fst (spec_line_col inp s)) (snd (spec_line_col inp s)) file false)).
+Check (C07_keywords_true : forall inp start ps file r l s e kids,
+  parse_pairs start inp = Ok ps ->
+  in_forest (Pair r s e kids) ps ->
+  keyword_of r = Some l ->
+  let p := Pair r s e kids in
+  kids = [] /\
+  kw_name (to_keyword inp file p) = l /\
+  (is_name l = true -> name_at (skipn (N.to_nat s) inp) l = true) /\
+  (no_lone_cr inp = true ->
+   kw_pos (to_keyword inp file p) = mkPos (fst (spec_line_col inp s)) (snd (spec_line_col inp s)) file false)).
 Print Assumptions C07_positions_true.
 Print Assumptions C07_lone_cr_refuted.
 Print Assumptions C07_block_string_refuted.
 Print Assumptions C07_surrogate_pair_refuted.
 Print Assumptions C07_object_type_without_fields_refuted.
 Print Assumptions C07_union_without_members_refuted.
+Print Assumptions C07_pairs_replayable.
+Print Assumptions C07_names_true.
+Print Assumptions C07_keywords_true.
